@@ -397,6 +397,8 @@ pub mod tokio {
         // a buffered byte stream: `consumed` is what reads have taken so far, `rest` what is still to come
         pub struct BufReader<R> { pub ghost consumed: Seq<u8>, pub ghost rest: Seq<u8>, pub r: R }
         impl<R> BufReader<R> {
+            // BufReader::new does no I/O; what the peer will send is unconstrained
+            #[verifier::external_body] pub fn new(r: R) -> (b: BufReader<R>) ensures b.consumed == Seq::<u8>::empty() { unimplemented!() }
             // AsyncBufReadExt::read_until: a completed read appends the bytes it consumed to buf; Ok(0) only at end of stream
             #[verifier::external_body]
             pub async fn read_until(&mut self, d: u8, buf: &mut Vec<u8>) -> (res: Result<usize, std::io::Error>)
@@ -453,6 +455,7 @@ pub mod tokio {
         pub struct Mutex<T> { pub t: T }
         pub struct MutexGuard<T> { pub t: T }
         impl<T> Mutex<T> {
+            #[verifier::external_body] pub fn new(t: T) -> (m: Mutex<T>) { unimplemented!() }
             #[verifier::external_body] pub async fn lock(&self, Tracked(w): Tracked<&mut World>) -> (g: MutexGuard<T>)
                 ensures final(w).tail_locks == old(w).tail_locks + 1, final(w).tail == old(w).tail, final(w).sink == old(w).sink, final(w).cc_errs == old(w).cc_errs { unimplemented!() }
         }
@@ -461,6 +464,14 @@ pub mod tokio {
         use vstd::prelude::*;
         pub struct TcpStream { pub x: u8 }
         pub struct TcpListener { pub x: u8 }
+        impl TcpStream {
+            // connecting to the optional log listener: may fail for any reason
+            #[verifier::external_body] pub async fn connect_addr(addr: &String) -> (r: Result<TcpStream, std::io::Error>) { unimplemented!() }
+            // AsyncWriteExt::write_all on the (not yet shared) connection
+            #[verifier::external_body] pub async fn write_all(&mut self, b: &[u8], Tracked(w): Tracked<&mut super::super::World>) -> (r: Result<(), std::io::Error>)
+                ensures r is Ok ==> final(w).tail == old(w).tail + b@, final(w).tail_locks == old(w).tail_locks, final(w).sink == old(w).sink, final(w).cc_errs == old(w).cc_errs,
+            { unimplemented!() }
+        }
     }
     pub mod fs {
         use vstd::prelude::*;
